@@ -90,6 +90,16 @@ fn current(addr: usize) -> usize {
 pub fn child_main(entry: usize, start: usize) -> ! {
     use std::io::Write;
     sim::set_check_live(false);
+    if std::env::var_os("TV_STDERR_FULL").is_some() {
+        // a process whose stderr cannot be written to (disk full, closed pipe): anything the abort path prints
+        // must not turn the abort into something else
+        unsafe {
+            let fd = libc::open(b"/dev/full\0".as_ptr() as *const libc::c_char, libc::O_WRONLY);
+            if fd >= 0 {
+                libc::dup2(fd, 2);
+            }
+        }
+    }
     let addr;
     let r: Result<(), ()> = match entry {
         0 => {
@@ -339,9 +349,12 @@ impl Engine for C16Engine {
     fn run(&self, c: &ByteCase, trace: bool) -> CaseReport {
         let _ = viol::take();
         let (entry, start, cls) = decode(c);
-        let o = child::run_self(&["child".into(), "c16".into(), entry.to_string(), start.to_string()], &[], Duration::from_secs(20));
+        // every other case runs with an unwritable stderr
+        let full = (c.p(0) as usize + c.p(1) as usize + c.p(9) as usize) % 2 == 1;
+        let envs: Vec<(&str, String)> = if full { vec![("TV_STDERR_FULL", "1".to_string())] } else { vec![] };
+        let o = child::run_self(&["child".into(), "c16".into(), entry.to_string(), start.to_string()], &envs, Duration::from_secs(20));
         let limit = isize::MAX as usize;
-        let what = format!("{} with the count preset to {:#x}", ENTRIES[entry], start);
+        let what = format!("{} with the count preset to {:#x}{}", ENTRIES[entry], start, if full { " (stderr is /dev/full)" } else { "" });
         let after = o.stdout.lines().find(|l| l.starts_with("AFTER")).map(|l| l.to_string());
         let caught = o.stdout.contains("CAUGHT");
         let aborted = matches!(o.signal, Some(6) | Some(4));
